@@ -140,6 +140,9 @@ func heldPost(r *vsched.Result) (string, string) {
 			if x != nil && o.C == 0 && x.kind != wEmpty && !x.seen[o.B] && !setBegun[o.B] {
 				return "C15.value-never-held", fmt.Sprintf("waiter %d returned value %d, which the cell never held during the call", o.A, o.B)
 			}
+			if x != nil && o.C == 0 && x.kind == wEmpty && !x.seen[0] && !setBegun[0] {
+				return "C15.value-never-held", fmt.Sprintf("WaitValueEmpty (waiter %d) returned nil although the cell was never empty during the call", o.A)
+			}
 		}
 	}
 	return "", ""
@@ -207,7 +210,11 @@ func regOp(c *ccontainer.CContainer[int], id int64, kind, arg int) {
 	out := 0
 	switch kind {
 	case 0:
-		out = c.GetValue()
+		if arg == 1 {
+			out = c.SwapValue(nil) // documented: returns the current value without changes
+		} else {
+			out = c.GetValue()
+		}
 	case 1:
 		c.SetValue(arg)
 	case 2:
@@ -248,7 +255,7 @@ func init() {
 	})
 	eng.Register(&eng.Scenario{
 		Name: "cc-register", Props: []string{"C15"}, MustFinish: true, ObsNames: stdObs,
-		Doc:   "CContainer: 3 threads x 2 operations chosen from {GetValue, SetValue(5), SetValue(7), SwapValue(+1)}; porcupine: linearizable as one register",
+		Doc:   "CContainer: 3 threads x 2 operations chosen from {GetValue (SwapValue(nil) on the third thread), SetValue(5), SetValue(7), SwapValue(+1)}; porcupine: linearizable as one register",
 		Quick: eng.Bounds{PB: 1}, Thorough: eng.Bounds{PB: 2},
 		Body: func() {
 			c := ccontainer.NewCContainer[int](0)
@@ -259,6 +266,9 @@ func init() {
 					switch vsched.Choose(4) {
 					case 0:
 						ks[j] = 0
+						if t == 2 {
+							as[j] = 1 // thread 2 reads through SwapValue(nil)
+						}
 					case 1:
 						ks[j], as[j] = 1, 5
 					case 2:
@@ -402,6 +412,25 @@ func init() {
 			finalWaiters(c, nil, map[int]int{wChange: 2})
 			if v := c.GetValue(); v != 1 && v != 2 {
 				fail("C15.lost-update", "final value %d after SetValue(1) and SetValue(2)", v)
+			}
+		},
+		Post: heldPost,
+	})
+	eng.Register(&eng.Scenario{
+		Name: "cc-cancel-write", Props: []string{"C15"}, ObsNames: stdObs,
+		Doc:   "CContainer holding -1: a waiter WaitValueEmpty or WaitValueWithValidator(v>=2) (choice) with a cancellable context; a writer makes a write that wakes the waiter but does not satisfy its condition (-1 -> -2) while a canceller cancels: the waiter returns context.Canceled or stays parked, never a value",
+		Quick: eng.Bounds{PB: 3}, Thorough: eng.Bounds{PB: 4},
+		Body: func() {
+			kind := []int{wEmpty, wValid, wValidEr}[vsched.Choose(3)]
+			c := ccontainer.NewCContainer[int](-1)
+			vsched.Observe(oVal, -1, 0, 0)
+			ctx, cancel := context.WithCancel(bg)
+			T("W", func() { ccWait(c, 1, kind, 0, nil, ctx, nil) })
+			T("A", func() { swapTo(c, func(int) int { return -2 }) })
+			T("C", func() { vsched.CtrSet(c15Cancel, 1); cancel() })
+			vsched.Settle()
+			if n := vsched.CountParked(wLabels[kind]); n > 0 {
+				fail("C15.waiter-stuck", "waiter parked in %s although its context was cancelled", wLabels[kind])
 			}
 		},
 		Post: heldPost,
